@@ -149,4 +149,6 @@ class EOSFit:
             except (RuntimeWarning, scipy.optimize.OptimizeWarning) as exc:
                 raise RuntimeError("Met difficulty in fitting to EOS.") from exc
             else:
+                if result[4] not in (1, 2, 3, 4):
+                    raise RuntimeError("Fitting to EOS did not converge: %s" % result[3])
                 self.parameters = result[0]
